@@ -39,6 +39,12 @@ TEXT = {
  "C08": dict(tech="rapid histories x stop points; metamorphic oracle (restarted node == reference model of the uninterrupted run) + process-exit observation in a child",
    text="Generated workloads are run with clean stop/restart at every / one / some stop points on RocksDB (child processes: Close must return, exit status 0, no abort) and on bplus (re-constructed Balloon); all later snapshots must equal the reference of the uninterrupted sequence and proofs of pre-stop events verify against pre-stop snapshots. Exploration.",
    note="Debian librocksdb has assertions on: a leaked iterator at close aborts the child, which is how 'releases every storage resource' is observed. Shutdown liveness = 30 s bound.", ref="§5 C08"),
+ "C10": dict(tech="schedule-controlled concurrency testing: rapid-generated query sets against an apply parked by a gating store wrapper, plus race-detector stress of the public API",
+   text="The harness owns the schedule the property singles out: an insertion is parked between computing and persisting (gating wrapper around the real RocksDB store, no repo hook), generated queries start concurrently, the write is released, and every answer must be an error or a proof verifying against the snapshots issued for the versions it names; never a panic, hang or mixed state. A second tier runs concurrent adders/queriers in a -race build. Exploration of that interleaving and its neighbours, not of all schedules.",
+   note="Only executed schedules are seen by the race detector; event digests are SHA-256 of text, so in-flight and old keys share no long prefix.", ref="§5 C10"),
+ "C16": dict(tech="rapid stateful model-based testing of backup / delete / list / restore sequences on a real RaftNode, restored nodes opened in a second child",
+   text="Generated sequences of add/backup/delete/list/restore run on a real single-node RaftNode; listing must equal the model, and a fresh node opened on each restored backup must report the backup's version, prove membership/consistency of exactly the first v+1 events against the originally issued snapshots, deny later events, and give v+1 with reference digests to its first accepted insertion. Exploration; one known finding (F-C16-1) is tolerated by exact signature and probed.",
+   note="Backups are taken of non-empty logs; restored node uses a fresh raft directory (documented procedure).", ref="§5 C16"),
 }
 
 NA = {}
